@@ -6,7 +6,7 @@ ID = 'C04'
 ENGINE = 'detsched'
 TECHNIQUE = 'runtime monitoring under a deterministic cooperative scheduler: offline history checkers (exactly-once, deque-model replay, per-poster order, non-overlap, lost-wakeup at quiescence)'
 RULE = ('C05 scenarios (1-4 posters x 1-6 unique-id events, fifo/lifo mixed, handlers that post further events, spied/un-spied, instrumented '
-        'or not; in 40% of the runs additionally 0-2 finite timed sources and 0-3 fabric publications the object subscribed to) run to quiescence under seeded random / PCT schedules; recorded: post call/return steps, the linearised operation log of '
+        'or not; in 40% of the runs additionally 0-2 finite timed sources and 0-3 fabric publications the object subscribed to - in half of these runs the same subscription is made twice, before start_at or once more on the running object) run to quiescence under seeded random / PCT schedules; recorded: post call/return steps, the linearised operation log of '
         'the object\'s deque (logging deque subclass, atomic with each operation), dispatch enter/exit records from a harness subclass. '
         'Checked: every returned post is exactly one append (fifo) / appendleft (lifo) of that event inside its call interval; the dispatch '
         'sequence equals the popleft sequence and a replayed deque model; every posted id dispatched exactly once, none twice, none '
@@ -14,7 +14,7 @@ RULE = ('C05 scenarios (1-4 posters x 1-6 unique-id events, fifo/lifo mixed, han
         'lost wake-up). Every twentieth case is a second opinion on REAL threads with the real primitives (vt/osback.py: nothing substituted, switch interval 1 us, random yields at line starts of miros code): exactly-once, no phantom, steps on the object\'s thread and not overlapping, per-poster order of all-fifo runs; a run that does not drain in the wall-clock limit is inconclusive there. distinct_nontrivial = distinct context-switch sequences of runs that entered a race window')
 CASES = {'quick': 1200, 'thorough': 100000}
 BUDGET = {'quick': 150, 'thorough': 300}
-REQUIRE = {'runs_checked': 500, 'runs_with_live_output_on': 60, 'timed_events_expected': 200, 'published_events_expected': 200, 'poster_between_token_put_and_append': 50, 'consumer_between_get_and_popleft': 50, 'events_dispatched': 3000, 'os_backend_runs': 30}
+REQUIRE = {'runs_checked': 500, 'runs_with_live_output_on': 60, 'timed_events_expected': 200, 'published_events_expected': 200, 'poster_between_token_put_and_append': 50, 'consumer_between_get_and_popleft': 50, 'events_dispatched': 3000, 'os_backend_runs': 30, 'runs_with_the_subscription_made_twice': 60}
 ASSUME = ['queue capacity (500) is not reached', 'runs cut by the C05 step budget are attributed to C05 and excluded here']
 ANNOUNCE_CASES = True
 
@@ -130,7 +130,9 @@ def run_case(ctx, n):
   extras = None
   if rng.random() < 0.4:
     extras = {'timed': [(rng.choice(['fifo', 'lifo']), rng.choice([0.01, 0.05]), rng.randint(1, 3), rng.choice([True, False])) for _ in range(rng.randint(0, 2))],
-              'pubs': list(range(rng.randint(0, 3))), 'sub_kind': rng.choice(['fifo', 'lifo'])}
+              'pubs': list(range(rng.randint(0, 3))), 'sub_kind': rng.choice(['fifo', 'lifo']), 'sub_again': rng.choice([None, None, 'before', 'after'])}
+    if extras['pubs'] and extras['sub_again']:
+      ctx.count('runs_with_the_subscription_made_twice')
     ctx.count('runs_with_timed_or_published_events')
   if spied and rng.random() < 0.3:
     extras = dict(extras or {}, live=(True, rng.random() < 0.5))
